@@ -266,3 +266,152 @@ def _():
 def _():
     q = P_BLS
     return q % 4 == 3 and q % 2 == 1 and q < 2 ** 381 and q > 2 ** 380 and (q * q) % 16 == 9, "q = 3 mod 4, odd, 380 < log2 q < 381, q^2 = 9 mod 16"
+
+
+# ---- hash-to-curve constants (C10) ---------------------------------------------------------------------
+ISO11_A = 0x144698a3b8e9433d693a02c96d4982b0ea985383ee66a8d8e8981aefd881ac98936f8da0e0f97f5cf428082d584c1d
+ISO11_B = 0x12e2908d11688030018b12e8753eee3b2016c1f0f24f4070a0b9c14fcef35ef55a23215a316ceaa5d1cc48e98e172be0
+
+
+def _polymul(a, b, mul, add, zero):
+    res = [zero] * (len(a) + len(b) - 1)
+    for i, x in enumerate(a):
+        for j, y in enumerate(b):
+            res[i + j] = add(res[i + j], mul(x, y))
+    return res
+
+
+def _poly_ops(F):
+    zero, one = F.zero(), F.one()
+    mul = lambda x, y: x * y
+    add = lambda x, y: x + y
+    return zero, one, mul, add
+
+
+def _isogeny_identity(F, A, B, bE, tab):
+    """(x^3 + A x + B) * yn^2 * xd^3 == (xn^3 + bE xd^3) * yd^2   in F[x]"""
+    zero, one, mul, add = _poly_ops(F)
+    xn, xd, yn, yd = [list(r) for r in tab]
+    pm = lambda a, b: _polymul(a, b, mul, add, zero)
+
+    def padd(a, b):
+        n = max(len(a), len(b))
+        return [add(a[i] if i < len(a) else zero, b[i] if i < len(b) else zero) for i in range(n)]
+    g = [B, A, zero, one]
+    lhs = pm(pm(g, pm(yn, yn)), pm(xd, pm(xd, xd)))
+    xd3 = pm(xd, pm(xd, xd))
+    rhs = pm(padd(pm(xn, pm(xn, xn)), [bE * c for c in xd3]), pm(yd, yd))
+    n = max(len(lhs), len(rhs))
+    return all((lhs[i] if i < len(lhs) else zero) == (rhs[i] if i < len(rhs) else zero) for i in range(n))
+
+
+@evaluator("swu.constants")
+def _():
+    c = M("py_ecc.optimized_bls12_381.constants")
+    F, F2 = c.FQ, c.FQ2
+    p = P_BLS
+    ok = c.ISO_11_Z == F(11) and int(c.ISO_11_A.n) == ISO11_A and int(c.ISO_11_B.n) == ISO11_B
+    ok = ok and c.ISO_3_A == F2([0, 240]) and c.ISO_3_B == F2([1012, 1012]) and c.ISO_3_Z == F2([-2, -1])
+    ok = ok and c.P_MINUS_3_DIV_4 == (p - 3) // 4 and c.P_MINUS_9_DIV_16 == (p * p - 9) // 16 and (p - 3) % 4 == 0 and (p * p - 9) % 16 == 0
+    return ok, "A', B', Z of the 11- and 3-isogenous curves are the RFC 9380 section 8.8 values; exponents (p-3)/4, (p^2-9)/16"
+
+
+@evaluator("swu.G1.sqrt-constant")
+def _():
+    c = M("py_ecc.optimized_bls12_381.constants")
+    return c.SQRT_MINUS_11_CUBED * c.SQRT_MINUS_11_CUBED == -(c.ISO_11_Z ** 3), "SQRT_MINUS_11_CUBED^2 = -Z^3"
+
+
+def _is_square(x, F, order):
+    return x == F.zero() or x ** ((order - 1) // 2) == F.one()
+
+
+@evaluator("swu.exceptional-x1-square")
+def _():
+    c = M("py_ecc.optimized_bls12_381.constants")
+    p = P_BLS
+    ok = True
+    for F, A, B, Z, order in ((c.FQ, c.ISO_11_A, c.ISO_11_B, c.ISO_11_Z, p), (c.FQ2, c.ISO_3_A, c.ISO_3_B, c.ISO_3_Z, p * p)):
+        x1 = B / (Z * A)
+        ok = ok and _is_square(x1 ** 3 + A * x1 + B, F, order)
+        ok = ok and not _is_square(Z, F, order)                       # Z is a non-square (criterion 1)
+    # the non-zero roots of Z^2 u^4 + Z u^2 exist over F_p: -1/11 is a square
+    ok = ok and _is_square(c.FQ(-1) / c.ISO_11_Z, c.FQ, p)
+    return ok, "g(B/(ZA)) is a square and Z a non-square, for both isogenous curves"
+
+
+@evaluator("swu.no-y0")
+def _():
+    # g(x) = x^3 + A x + B has no root in the field  <=>  gcd(x^q - x, g) = 1 ; compute x^q mod g by square-and-multiply
+    c = M("py_ecc.optimized_bls12_381.constants")
+    p = P_BLS
+    ok = True
+    for F, A, B, q_ in ((c.FQ, c.ISO_11_A, c.ISO_11_B, p), (c.FQ2, c.ISO_3_A, c.ISO_3_B, p * p)):
+        zero, one = F.zero(), F.one()
+
+        def mulmod(a, b):
+            r = [zero] * 5
+            for i in range(3):
+                for j in range(3):
+                    r[i + j] = r[i + j] + a[i] * b[j]
+            # x^3 = -A x - B ; x^4 = -A x^2 - B x
+            r[2] = r[2] - A * r[4]
+            r[1] = r[1] - B * r[4]
+            r[1] = r[1] - A * r[3]
+            r[0] = r[0] - B * r[3]
+            return r[:3]
+        res, base, e = [one, zero, zero], [zero, one, zero], q_
+        while e:
+            if e & 1:
+                res = mulmod(res, base)
+            base = mulmod(base, base)
+            e >>= 1
+        h = [res[0], res[1] - one, res[2]]           # x^q - x mod g
+        # gcd(g, h) = 1 iff resultant != 0; equivalently h has no common root: evaluate via polynomial gcd (degree <= 2)
+        def trim(a):
+            while a and a[-1] == zero:
+                a = a[:-1]
+            return a
+        a_, b_ = [B, A, zero, one], trim(h)
+        while b_:
+            while len(a_) >= len(b_) and a_:
+                k_ = a_[-1] / b_[-1]
+                sh = len(a_) - len(b_)
+                a_ = trim([a_[i] - (k_ * b_[i - sh] if i >= sh else zero) for i in range(len(a_))])
+            a_, b_ = b_, a_
+        ok = ok and len(a_) == 1
+    return ok, "x^3 + A'x + B' has no root in F_p resp. F_p2: no point of E' has y = 0"
+
+
+@evaluator("swu.G2.etas")
+def _():
+    c = M("py_ecc.optimized_bls12_381.constants")
+    sq = [e * e for e in c.ETAS]
+    ok = len(c.ETAS) == 4 and all(not (sq[i] == sq[j]) for i in range(4) for j in range(i + 1, 4))
+    rt = c.POSITIVE_EIGHTH_ROOTS_OF_UNITY
+    ok = ok and len(rt) == 4 and all(r ** 8 == c.FQ2.one() for r in rt)
+    rsq = [r * r for r in rt]
+    ok = ok and all(not (rsq[i] == rsq[j]) for i in range(4) for j in range(i + 1, 4))
+    # eta_i^2 are the four values Z^3 * (odd eighth roots ...): eta^2 / Z^3 has order dividing 8 but is not a square root of unity
+    Z3 = c.ISO_3_Z ** 3
+    ok = ok and all((s_ / Z3) ** 4 == -c.FQ2.one() for s_ in sq)
+    return ok, "eta_i^2 pairwise distinct with (eta_i^2 / Z^3)^4 = -1; the four 'positive' eighth roots of unity have distinct squares"
+
+
+@evaluator("swu.isogeny-G1-maps-Eprime-into-E")
+def _():
+    c = M("py_ecc.optimized_bls12_381.constants")
+    return _isogeny_identity(c.FQ, c.ISO_11_A, c.ISO_11_B, c.FQ(4), c.ISO_11_MAP_COEFFICIENTS), \
+        "(x^3+A'x+B') y_num^2 x_den^3 = (x_num^3 + 4 x_den^3) y_den^2 in F_p[x]: the pinned 11-isogeny maps E' into E"
+
+
+@evaluator("swu.isogeny-G2-maps-Eprime-into-E")
+def _():
+    c = M("py_ecc.optimized_bls12_381.constants")
+    return _isogeny_identity(c.FQ2, c.ISO_3_A, c.ISO_3_B, c.FQ2([4, 4]), c.ISO_3_MAP_COEFFICIENTS), \
+        "the pinned 3-isogeny maps E' into the twist E'(F_p2): y^2 = x^3 + 4(1+i)"
+
+
+@evaluator("swu.sgn0-flip")
+def _():
+    return P_BLS % 2 == 1, "p odd: sgn0(-y) = 1 - sgn0(y) for y != 0"
